@@ -2313,3 +2313,84 @@ mod tests {
         assert!(policy_object.contains("auto:cost"));
     }
 }
+
+// ---------------------------------------------------------------------------
+// Verification hooks (add-only; compiled only with `--cfg kolibrie_verif`).
+// Thin `pub` wrappers around the private top-k functions so that an external
+// harness can drive them directly. No behaviour is changed.
+// ---------------------------------------------------------------------------
+
+#[cfg(kolibrie_verif)]
+pub fn verif_seed_id(raw: u32) -> SeedId {
+    SeedId(raw)
+}
+
+/// `residual`: 0 = Exhausted, 1 = Bounded(mass), 2 = Unknown.
+#[cfg(kolibrie_verif)]
+pub fn verif_enumerate_proofs(
+    store: &LineageStore,
+    seeds: &SeedSnapshot,
+    root: LineageId,
+    cap: usize,
+    deadline: Instant,
+    clock: &dyn HybridClock,
+) -> Result<(Vec<Vec<u32>>, u8, f64), HybridReason> {
+    let enumeration = enumerate_proofs(store, seeds, root, cap, deadline, clock)?;
+    let (kind, mass) = match enumeration.residual {
+        ResidualMass::Exhausted => (0u8, 0.0),
+        ResidualMass::Bounded(mass) => (1u8, mass),
+        ResidualMass::Unknown => (2u8, 0.0),
+    };
+    Ok((
+        enumeration
+            .proofs
+            .iter()
+            .map(|proof| proof.iter().map(|id| id.get()).collect())
+            .collect(),
+        kind,
+        mass,
+    ))
+}
+
+#[cfg(kolibrie_verif)]
+pub fn verif_interval_from_enumeration(
+    lower_bound: f64,
+    proofs: &[Vec<u32>],
+    retained_count: usize,
+    residual_kind: u8,
+    residual_mass: f64,
+    seeds: &SeedSnapshot,
+) -> Result<Option<ProbabilityInterval>, HybridReason> {
+    let proofs: Vec<Proof> = proofs
+        .iter()
+        .map(|proof| proof.iter().map(|id| SeedId(*id)).collect())
+        .collect();
+    let residual = match residual_kind {
+        0 => ResidualMass::Exhausted,
+        1 => ResidualMass::Bounded(residual_mass),
+        _ => ResidualMass::Unknown,
+    };
+    interval_from_enumeration(lower_bound, &proofs, retained_count, residual, seeds)
+}
+
+/// Error code: 0 = deadline, 1 = node budget, 2 = missing seed.
+#[cfg(kolibrie_verif)]
+pub fn verif_retained_proof_wmc(
+    proofs: &[Vec<u32>],
+    seeds: &SeedSnapshot,
+    deadline: Instant,
+    node_budget: usize,
+    clock: &dyn HybridClock,
+) -> Result<(f64, usize), u8> {
+    let proofs: Vec<Proof> = proofs
+        .iter()
+        .map(|proof| proof.iter().map(|id| SeedId(*id)).collect())
+        .collect();
+    retained_proof_wmc(&proofs, seeds, deadline, node_budget, clock).map_err(|failure| {
+        match failure {
+            CompileFailure::Deadline => 0u8,
+            CompileFailure::Nodes => 1u8,
+            CompileFailure::MissingSeed => 2u8,
+        }
+    })
+}
